@@ -1,9 +1,10 @@
 #!/bin/bash
 # Runs every claimed check's quick (or $1) tier sequentially; prints exit code and wall time per property.
 T=${1:-quick}
-for p in $(python3 -c "import json; print(' '.join(c['property_id'] for c in json.load(open('/verif/MANIFEST.json'))['checks']))"); do
+cd "$(dirname "$0")"
+for p in $(python3 -c "import json; print(' '.join(c['property_id'] for c in json.load(open('MANIFEST.json'))['checks']))"); do
   s=$(date +%s)
-  /verif/check $p --tier $T > /tmp/verif_run_$p.log 2>&1; rc=$?
+  "$(dirname "$0")"/check $p --tier $T > /tmp/verif_run_$p.log 2>&1; rc=$?
   e=$(date +%s)
   echo "$p rc=$rc wall=$((e-s))s $(tail -1 /tmp/verif_run_$p.log | cut -c1-160)"
 done
